@@ -1,6 +1,7 @@
 //! anydb-mc — model-checking engines for the anydb properties (see /verif/DESIGN.md).
 
 mod codecx;
+mod eagerx;
 mod importx;
 mod lazyx;
 mod rawx;
@@ -8,6 +9,7 @@ mod rawx_run;
 mod vecreads;
 mod vecx;
 mod vecx_run;
+mod versionx;
 mod report;
 mod scratch;
 mod seqx;
@@ -54,6 +56,9 @@ fn main() {
                 let kf = report::KnownFindings::load();
                 let mut run = report::Run::new(p, tier, "vecx");
                 vecx_run::add(&mut run, &kf, p, tier, if tier == "quick" { 45 } else { 1500 });
+                if p == "C08" {
+                    vecreads::bigscan(&mut run, &kf);
+                }
                 run.cov("rule", serde_json::json!(rawx_run::RULE));
                 run.finish()
             }
@@ -77,6 +82,20 @@ fn main() {
                 codecx::add(&mut run, &kf, tier);
                 vecx_run::add(&mut run, &kf, "C17", tier, if tier == "quick" { 20 } else { 600 });
                 run.cov("rule", serde_json::json!("boundary cross products of every field of every codec, all truncations and byte/length-field mutations of valid encodings, all slot-kind combinations of the regions file; each decode is one case, distinct by its input bytes"));
+                run.finish()
+            }
+            "C19" => {
+                let kf = report::KnownFindings::load();
+                let mut run = report::Run::new("C19", tier, "versionx");
+                versionx::add(&mut run, &kf, tier);
+                run.cov("rule", serde_json::json!("all sequences up to the stated depth over the alphabet of compute calls (family x presented versions x starting index) and write / re-import / source growth, each executed from scratch on a real EagerVec; distinct = distinct (stored result, expected result) outcomes"));
+                run.finish()
+            }
+            "C06" => {
+                let kf = report::KnownFindings::load();
+                let mut run = report::Run::new("C06", tier, "eagerx");
+                eagerx::add(&mut run, &kf, tier, if tier == "quick" { 45 } else { 1500 });
+                run.cov("rule", serde_json::json!("per compute method: all source histories of the stated number of steps over {append 1, append 2, truncate+regrow 1, truncate+regrow 2, no change} x starting-index choices x batch limits x {nothing, write, re-import, redundant call} between calls; each case compares the incrementally maintained result with a from-scratch run after every step; distinct = distinct (method, result sequence)"));
                 run.finish()
             }
             "C13" => {
